@@ -192,3 +192,95 @@ Example c20_ex_history :
   monotone 0 ops /\
   map ctime (events_of u (rrun ops [])) = [2000 + retention; 5000].
 Proof. vm_compute. repeat split; intros; discriminate. Qed.
+
+(* ---------------------------------------------------------------- a stalled subscriber *)
+Open Scope nat_scope.
+
+(* Subscriber j stops reading (from some state on its connection goroutine never takes another
+   event), whatever its queue holds and however long the history goes on — publishes, reads,
+   connects and disconnects of the others in any order:
+   every publish of the history terminates (no send blocks) after one channel operation per
+   subscriber, the same number whatever j's queue holds; j itself is handed nothing more and its
+   queue stays within its capacity; what every other subscriber holds and has been handed is the
+   same as if j were in any other state (it cannot even observe that j is stalled); and every other
+   live subscriber whose queue has a free slot at each publish is handed exactly the published
+   sequence. *)
+Theorem c20_stalled_subscriber : forall ops s j cj,
+  stalled j ops = true -> nth_error s j = Some cj ->
+  (forall pre e post, ops = pre ++ NPub e :: post ->
+     let st := nrun pre s in
+     Forall (fun o => o <> Blocked) (fst (publish e st)) /\
+     forall cj', publish_cost e (update_nth j (fun _ => cj') st) = publish_cost e st) /\
+  (exists cj', nth_error (nrun ops s) j = Some cj' /\ got cj' = got cj /\
+               (length (buf cj) <= cap cj -> length (buf cj') <= cap cj')) /\
+  (forall cj', others j (nrun ops (update_nth j (fun _ => cj') s)) = others j (nrun ops s)) /\
+  (forall i c, i <> j -> nth_error s i = Some c -> live c = true ->
+     Forall (fun o => o <> NUnsub i) ops -> never_full i ops s = true ->
+     exists c', nth_error (nrun ops s) i = Some c' /\ delivered c' = delivered c ++ pubs ops).
+Proof. exact stalled_subscriber. Qed.
+Print Assumptions c20_stalled_subscriber.
+
+(* a fan-out that waits for a free slot (a send without the default branch, or a second select
+   that waits for the slot or for the subscriber to go away) does block on a connected subscriber
+   whose queue is full *)
+Theorem c20_waiting_fanout_refuted :
+  exists e s j c, nth_error s j = Some c /\ live c = true /\ length (buf c) = cap c /\
+    In Blocked (fst (publish_with blocking_send e s)).
+Proof. exact waiting_fanout_blocks. Qed.
+Print Assumptions c20_waiting_fanout_refuted.
+
+(* ---------------------------------------------------------------- the history file across crashes and failed saves *)
+
+(* One save of generation g to file f (open f~, write, flush, fsync, close, rename f~ -> f, remove
+   f~) over ANY file system, ending in ANY way — it completes, the process dies before step k, or
+   step k fails and the error path runs: what a restart loads from f is what it would have loaded
+   before the save or the new generation, never nothing when a generation existed; a completed save
+   gives the new generation; a save that dies or fails at any step up to and including the rename
+   leaves the restart exactly what it had; and no other file is touched. *)
+Theorem c20_save_atomic : forall f g st fs,
+  let fs' := run_save (save_prog f g) (save_cleanup f) st fs in
+  (startup_load fs' f = startup_load fs f \/ startup_load fs' f = LGen g) /\
+  (forall old, fs_get f fs = Some (FWhole old) ->
+     startup_load fs' f = LGen old \/ startup_load fs' f = LGen g) /\
+  (st = Completes -> startup_load fs' f = LGen g) /\
+  (forall k, st = FaultAt k \/ st = CrashAt k -> k <= 5 -> startup_load fs' f = startup_load fs f) /\
+  (forall n, n <> f -> n <> tmp_name f -> fs_get n fs' = fs_get n fs).
+Proof. exact save_atomic. Qed.
+Print Assumptions c20_save_atomic.
+
+(* any number of saves, each ending in any way: a restart loads the generation of the last save
+   that got as far as its rename, or what was there before when none did *)
+Theorem c20_saves_last_renamed : forall f saves fs,
+  startup_load (run_saves f saves fs) f =
+  match last_renamed saves None with Some g => LGen g | None => startup_load fs f end.
+Proof. exact saves_load. Qed.
+Print Assumptions c20_saves_last_renamed.
+
+(* moving the previous generation aside before the final rename is not atomic: there is a crash
+   point and there is a failing step after which a restart finds no history file although a
+   generation existed *)
+Theorem c20_backup_rename_refuted :
+  exists f g old fs, fs_get f fs = Some (FWhole old) /\
+    (exists k, startup_load (run_save (save_prog_aside f g) (save_cleanup f) (CrashAt k) fs) f = LFirstStart) /\
+    (exists k, startup_load (run_save (save_prog_aside f g) (save_cleanup f) (FaultAt k) fs) f = LFirstStart).
+Proof. exact aside_loses. Qed.
+Print Assumptions c20_backup_rename_refuted.
+
+(* what a start-up loads depends on the content under the history file's own name alone: files
+   left next to it (a half-written or complete f~, any other name) neither win nor disturb *)
+Theorem c20_startup_name_only : forall now fs fs' f,
+  fs_get f fs = fs_get f fs' -> startup now fs f = startup now fs' f.
+Proof. exact startup_name_only. Qed.
+Print Assumptions c20_startup_name_only.
+
+Theorem c20_startup_leftover : forall now fs f n c, n <> f ->
+  startup now (fs_set n c fs) f = startup now fs f /\ startup now (fs_del n fs) f = startup now fs f.
+Proof. exact startup_leftover. Qed.
+Print Assumptions c20_startup_leftover.
+
+Example c20_ex_save_fault :
+  let f := [102%N] in let fs := [(f, FWhole (gen_tag 1))] in
+  startup_load (run_save (save_prog f (gen_tag 2)) (save_cleanup f) (FaultAt 3) fs) f = LGen (gen_tag 1) /\
+  startup_load (run_save (save_prog f (gen_tag 2)) (save_cleanup f) (CrashAt 6) fs) f = LGen (gen_tag 2) /\
+  run_save (save_prog f (gen_tag 2)) (save_cleanup f) (CrashAt 3) fs = [(tmp_name f, FWhole (gen_tag 2)); (f, FWhole (gen_tag 1))].
+Proof. vm_compute. repeat split; reflexivity. Qed.
